@@ -1,7 +1,7 @@
 (* C02 - Every successful transfer conserves value across the whole ledger. *)
 From Coq Require Import String List ZArith Bool.
 From Orbiter Require Import Lib.Res Gen.Constants Model.Env Model.Fee Model.Payload Model.State Model.Pipeline
-     Proofs.Ledger Proofs.PipelineProofs Proofs.TransferProps Props.Examples.
+     Proofs.Ledger Proofs.PipelineProofs Proofs.TransferProps Proofs.GasProofs Props.Examples Props.OpenFindings.
 Import ListNotations.
 Open Scope string_scope.
 Open Scope Z_scope.
@@ -27,6 +27,24 @@ Theorem C02_moves : forall cfg e w p tape,
     0 < out /\ 0 < A.
 Proof. exact success_moves. Qed.
 Print Assumptions C02_moves.
+
+(* [recv] is the receive path on a chain none of whose Hyperlane post-dispatch hooks charges the sender for
+   gas.  With such hooks ([recv_gas g], any g) a packet whose forwarding does not go through one is handled
+   identically, so the theorems of this file apply to it ... *)
+Theorem C02_hooks_same : forall g cfg e w p tape,
+  pkt_gas_free g p = true -> recv_gas g cfg e w p tape 0 = recv cfg e w p tape.
+Proof. intros g cfg e w p tape H. exact (recv_gas_same g cfg e w p tape 0 H). Qed.
+Print Assumptions C02_hooks_same.
+(* ... and through a hook that does charge, C02 is FALSE of the code as it is (open finding 17): the paymaster's
+   account is credited out of the orbiter account, in a denomination that is not the transferred one *)
+Theorem C02_open_gas_hook :
+  exists g cfg e w p,
+    wf_cfg cfg /\ rr_out (recv_gas g cfg e w p [] 0) = OAckOk /\
+    In (MSend (cfg_orbiter cfg) "19b0" "ufoo" 9) (rr_moves (recv_gas g cfg e w p [] 0)) /\
+    bal (w_l (rr_world (recv_gas g cfg e w p [] 0))) "19b0" "ufoo" = bal (w_l w) "19b0" "ufoo" + 9 /\
+    bal (w_l (rr_world (recv_gas g cfg e w p [] 0))) (cfg_orbiter cfg) "ufoo" = bal (w_l w) (cfg_orbiter cfg) "ufoo" - 9.
+Proof. exact open_C02_gas_hook. Qed.
+Print Assumptions C02_open_gas_hook.
 
 (* no account that is not a party of one of these movements changes, in any denomination *)
 Theorem C02_untouched : forall cfg e w p tape x d,
